@@ -87,6 +87,50 @@ func matchesDecoded(d interface{}, t octosql.Type) bool {
 	return false
 }
 
+// denotesDecoded: the printed value is a reading of the cell text that the column type admits (the
+// Int only if the text fits int64, the Float where Float is admitted, the text itself as a String ...).
+func denotesDecoded(d interface{}, t octosql.Type, cell string) bool {
+	switch x := d.(type) {
+	case nil:
+		return cell == ""
+	case json.Number:
+		if want, err := strconv.ParseInt(cell, 10, 64); err == nil && fileh.AdmitsID(t, octosql.TypeIDInt) {
+			if got, err := strconv.ParseInt(string(x), 10, 64); err == nil && got == want {
+				return true
+			}
+		}
+		if want, err := strconv.ParseFloat(cell, 64); (err == nil || math.IsInf(want, 0)) && fileh.AdmitsID(t, octosql.TypeIDFloat) {
+			if got, err := strconv.ParseFloat(string(x), 64); err == nil && fileh.FloatEq(got, want) {
+				return true
+			}
+		}
+		return false
+	case bool:
+		want, err := strconv.ParseBool(cell)
+		return err == nil && want == x && fileh.AdmitsID(t, octosql.TypeIDBoolean)
+	case string:
+		if fileh.AdmitsID(t, octosql.TypeIDString) && x == cell {
+			return true
+		}
+		if fileh.AdmitsID(t, octosql.TypeIDTime) {
+			a, err1 := time.Parse(time.RFC3339Nano, cell)
+			b, err2 := time.Parse(time.RFC3339Nano, x)
+			if err1 == nil && err2 == nil && a.Equal(b) {
+				return true
+			}
+		}
+		if fileh.AdmitsID(t, octosql.TypeIDFloat) {
+			want, err1 := strconv.ParseFloat(cell, 64)
+			got, err2 := strconv.ParseFloat(x, 64)
+			if (err1 == nil || math.IsInf(want, 0)) && err2 == nil && (math.IsNaN(want) || math.IsInf(want, 0)) && fileh.FloatEq(got, want) {
+				return true
+			}
+		}
+		return false
+	}
+	return false
+}
+
 type described struct {
 	names []string
 	types map[string]octosql.Type
@@ -145,13 +189,25 @@ func runCLI(c *core.Ctx) {
 		case i%15 == 14:
 			cliEmptyListPreview(c, runner, id, rng)
 		case i%15 == 6:
-			cliCSV(c, runner, id, rng, i*7, false)
+			cliCSV(c, runner, id, rng, "shared", i*7, false)
 		case i%15 == 13:
-			cliCSV(c, runner, id, rng, i*7, true)
+			cliCSV(c, runner, id, rng, "shared", i*7, true)
+		case i%15 == 3:
+			cliCSV(c, runner, id, rng, "big", len(bigLits), i%2 == 1) // union columns
+		case i%15 == 10:
+			cliCSV(c, runner, id, rng, "big", 1+i/15, i%2 == 1) // Int-only column, out-of-range literal
+		case i%15 == 2:
+			cliTVF(c, runner, id, rng, "json", "tumble")
+		case i%15 == 5:
+			cliTVF(c, runner, id, rng, "csv", "tumble")
+		case i%15 == 8:
+			cliTVF(c, runner, id, rng, "json", "max_diff_watermark")
+		case i%15 == 11:
+			cliTVF(c, runner, id, rng, "csv", "max_diff_watermark")
 		case i%2 == 0:
 			cliJSON(c, runner, id, rng)
 		default:
-			cliCSV(c, runner, id, rng, -1, false)
+			cliCSV(c, runner, id, rng, "", 0, false)
 		}
 	})
 }
@@ -274,17 +330,22 @@ func describedString(d described) string {
 	return strings.Join(parts, ", ")
 }
 
-// cliCSV: shared >= 0 selects a shared-text file (shared.go) of that variant, as CSV or TSV.
-func cliCSV(c *core.Ctx, runner *cli.Runner, id string, rng *rand.Rand, shared int, tsv bool) {
+// cliCSV: special "shared" / "big" selects a shared-text (shared.go) / big-integer (big.go) file of
+// that variant, as CSV or TSV.
+func cliCSV(c *core.Ctx, runner *cli.Runner, id string, rng *rand.Rand, special string, variant int, tsv bool) {
 	var cs csvCase
 	name := "t.csv"
-	if shared >= 0 {
-		cs = genSharedCSVCase(rng, id, shared, tsv)
-		if tsv {
-			name = "t.tsv"
-		}
+	if tsv && special != "" {
+		name = "t.tsv"
+	}
+	switch special {
+	case "shared":
+		cs = genSharedCSVCase(rng, id, variant, tsv)
 		c.Count("cli/csv/shared_text_files", 1)
-	} else {
+	case "big":
+		cs = genBigCSVCase(rng, id, variant, tsv)
+		c.Count("cli/csv/big_integer_files", 1)
+	default:
 		cs = genCSVCase(rng, id)
 	}
 	c.Eval(1)
@@ -387,13 +448,19 @@ func cliCSV(c *core.Ctx, runner *cli.Runner, id string, rng *rand.Rand, shared i
 				} else {
 					add("csv:type-mismatch", desc)
 				}
+			default:
+				if !denotesDecoded(dv, t, cell) {
+					add("csv:value-not-what-the-cell-denotes", desc)
+				}
 			}
 		}
 	}
 	c.Count("cli/csv/cells_checked", cells)
 	for k, whats := range classes {
 		what := "a printed value does not match the described column type: "
-		if strings.Contains(k, "unrepresentable") || strings.Contains(k, "empty-cell") {
+		if strings.Contains(k, "denotes") {
+			what = "a value matches the column type but is not a reading of the cell text that the type admits: "
+		} else if strings.Contains(k, "unrepresentable") || strings.Contains(k, "empty-cell") {
 			what = "a row that cannot be represented in the described schema was converted instead of reported as an error: "
 		}
 		c.Violation(k, what+strings.Join(whats, "; "), replay)
